@@ -98,10 +98,11 @@ func (c *FnCtx) jsonLoadMap(term string, tt *types.Map)      {}
 func (c *FnCtx) checkFrameAtReturn(x *ssa.Return) {
 	sweepOnly := false
 	if c.con == nil || c.con.ModAll {
-		if !c.frameMode() {
-			return
-		}
-		sweepOnly = true
+		// no modifies clause to check. (In the write-frame sweep the per-store access obligations -
+		// every store targets a fresh or owned object - already imply that non-owned pre-existing
+		// values are unchanged at the return, given that callees respect the same frame; a second,
+		// return-time statement of it would need ownership-aware loop invariants and adds nothing.)
+		return
 	}
 	var fr map[string][]string
 	if !sweepOnly {
